@@ -289,9 +289,7 @@ def available (c : Chain) (s : Pool) (x : OutPoint) : Bool :=
     | none => false)
 
 def immature (c : Chain) (x : OutPoint) : Bool :=
-  match c.find x with
-  | some u => u.cb && (c.height + 1 - u.height < c.maturity)
-  | none => false
+  c.utxo.any (fun u => u.op = x && u.cb && (c.height + 1 - u.height < c.maturity))
 
 /-- `validateRelayFeeMet` (rate limiter abstracted to `freeRelay`). -/
 def relayFeeMet (pol : Policy) (t : TxAbs) (isNew rateLimit : Bool) : Bool :=
